@@ -28,7 +28,7 @@ from gen_models import gen_parts
 FAMILY = "models"
 RUNNER = ("Corr.Models_run", "run_models")
 
-MENU = {8: [1, 2, 3, 5, 7, 8], 16: [1, 2, 8, 12, 15, 16], 32: [1, 2, 12, 24, 31, 32]}
+MENU = {8: [1, 2, 3, 5, 7, 8], 16: [1, 2, 8, 12, 15, 16], 32: [1, 2, 12, 24, 31, 32], 64: [1, 2, 32, 63, 64]}
 UBITS = 64
 PANIC, ABORT, TIMEOUT = -999999, -999998, -999997
 NA, REFUSED, OP_PANIC = -5, -6, -7
@@ -559,7 +559,7 @@ def describe(inp):
 # ---------------------------------------------------------------- generators
 
 def pick_inst(rng, lookup=False):
-    pb = rng.choice([8, 16] if lookup else [8, 8, 16, 16, 32])
+    pb = rng.choice([8, 16] if lookup else [8, 8, 16, 16, 32, 32, 64])
     ps = MENU[pb]
     r = rng.random()
     if r < 0.3:
